@@ -358,6 +358,19 @@ fn run_tamper(plan: &Plan, lib: &dyn Lib, rec: &mut Rec) {
         rec.expect("C02", "decision-equals-reference", o.is_ok() == e, || format!("msg-last-bit-or-append scheme={} g={} | Signature::verify says {} but an independent CoreVerify (draft tags) says {}; msg_len={}", scheme_name(scheme), g.name(), o.kind(), e, m2.len()));
         rec.expect("C02", "altered-tuple-rejected", !o.is_ok(), || format!("msg-last-bit-or-append scheme={} g={} | altered message accepted; msg_len={}", scheme_name(scheme), g.name(), m2.len()));
     }
+    // ... and tuples whose points never went through a decoder (the public constructors take any curve point): the
+    // identity key with a small-order "signature" T satisfies the pairing equation for every message; the honest key
+    // with the identity signature; a small-order key with the identity signature
+    {
+        let t_sig = refimpl::layout::tagged(sig[0], &refimpl::small_order_point(g.sig_len(), plan.seed).to_bytes());
+        let o_sig = refimpl::layout::tagged(sig[0], &Pt::from_bytes(&sig[1..]).map(|p| p.sub(&p).to_bytes()).unwrap_or_default());
+        let o_pk = Pt::from_bytes(&a.pk).map(|p| p.sub(&p).to_bytes()).unwrap_or_default();
+        let t_pk = refimpl::small_order_point(g.pk_len(), plan.seed ^ 1).to_bytes();
+        for (what, s_, p_) in [("pk=O sig=small-order", &t_sig, &o_pk), ("pk=honest sig=O", &o_sig, &a.pk), ("pk=small-order sig=O", &o_sig, &t_pk), ("pk=O sig=honest", &sig, &o_pk)] {
+            let o = rec.call(lib, g, Op::VerifyUnchecked, &[&[0], s_, p_, &msg]);
+            rec.expect("C02", "altered-tuple-rejected", !o.is_ok(), || format!("unchecked-constructor {} scheme={} g={} | a tuple with an identity / small-order component verifies", what, scheme_name(scheme), g.name()));
+        }
+    }
     let (mode, salt) = plan.faults.iter().find(|f| f.k == "perturb").map(|f| (f.arg(0), f.arg(1) as u64)).unwrap_or((0, 0));
     let mut c = Courier::new(plan.seed, 3);
     let mut t = Tuple { pk: a.pk.clone(), sig: sig.clone(), msg: msg.clone() };
